@@ -148,22 +148,31 @@ inductive Spec.Step : Spec → VOp → Spec → Prop where
   | spliceOut (s : Spec) (a b k : Nat) (h : ¬ (a ≤ b ∧ b ≤ s.items.length)) :
       Step s (.splice a b k) { s with next := s.next + k }
 
-/-- the concrete world shows the abstract vector at `v` -/
-structure Rel (v ty : Nat) (w : World) (s : Spec) : Prop where
+/-- the concrete world shows the abstract vector at `v`, and every other vector is what the background `bg` says -/
+structure Rel (bg : Nat → Option VecSt) (v ty : Nat) (w : World) (s : Spec) : Prop where
   inv : w.Inv
   nofault : w.fault = none
   vec : ∃ d, w.vecs[v]? = some d ∧ d.live = true ∧ d.ty = ty ∧ d.abs = s.items.map Cell.val ∧
     d.cap = s.cap ∧ VecSt.resizable d.bk = !s.fixed
   next : w.created = s.next
+  others : ∀ u, u ≠ v → w.vecs[u]? = bg u
+
+variable {bg : Nat → Option VecSt}
+
+/-- the other vectors after a step: discharged by unfolding what the step did to the list of vectors -/
+macro "frame_tac" h:ident : tactic =>
+  `(tactic| (intro u hu; have hq := $h u hu
+             simp_all [List.getElem?_set, World.upd, World.bump, World.bumpN, logDrop, Ne.symm hu]))
 
 theorem vis_eq (w : World) (v : Nat) (d : VecSt) (hv : w.vecs[v]? = some d) : w.vis v = d.abs := by
   simp [World.vis, hv]
 
 /-- storing a new state for `v`: the other parts of the relation carry over -/
-theorem Rel.mk' {v ty : Nat} {w' : World} {s' : Spec} (hinv : w'.Inv) (hf : w'.fault = none) (d' : VecSt)
+theorem Rel.mk' {v ty : Nat} {w' : World} {s' : Spec} (hinv : w'.Inv) (hothers : ∀ u, u ≠ v → w'.vecs[u]? = bg u)
+    (hf : w'.fault = none) (d' : VecSt)
     (hv : w'.vecs[v]? = some d') (hl : d'.live = true) (hty : d'.ty = ty) (habs : d'.abs = s'.items.map Cell.val)
-    (hn : w'.created = s'.next) (hcap : d'.cap = s'.cap) (hbk : VecSt.resizable d'.bk = !s'.fixed) : Rel v ty w' s' :=
-  ⟨hinv, hf, ⟨d', hv, hl, hty, habs, hcap, hbk⟩, hn⟩
+    (hn : w'.created = s'.next) (hcap : d'.cap = s'.cap) (hbk : VecSt.resizable d'.bk = !s'.fixed) : Rel bg v ty w' s' :=
+  ⟨hinv, hf, ⟨d', hv, hl, hty, habs, hcap, hbk⟩, hn, hothers⟩
 
 theorem set_get (w : World) (v : Nat) (d x : VecSt) (hv : w.vecs[v]? = some d) : (w.vecs.set v x)[v]? = some x := by
   have hlt : v < w.vecs.length := (List.getElem?_eq_some_iff.mp hv).1
@@ -224,10 +233,10 @@ theorem room_refused {d : VecSt} {m : String} {s : Spec} (hwf : d.WF) (habs : d.
   · cases hr
 
 /-- `push` of an owned value -/
-theorem step_push (cfg : Cfg) (v ty : Nat) (w : World) (s : Spec) (h : Rel v ty w s) :
-    ∃ s', Spec.Step s .push s' ∧ Rel v ty (step cfg (VOp.push.toOp v ty) w).1 s' ∧
+theorem step_push (cfg : Cfg) (v ty : Nat) (w : World) (s : Spec) (h : Rel bg v ty w s) :
+    ∃ s', Spec.Step s .push s' ∧ Rel bg v ty (step cfg (VOp.push.toOp v ty) w).1 s' ∧
       (step cfg (VOp.push.toOp v ty) w).2.notUb := by
-  obtain ⟨hinv, hf, ⟨d, hv, hl, hty, habs, hcp, hbk⟩, hn⟩ := h
+  obtain ⟨hinv, hf, ⟨d, hv, hl, hty, habs, hcp, hbk⟩, hn, hbg⟩ := h
   have hcore : Hist.Core (VOp.push.toOp v ty) := trivial
   have hvalid : Hist.Valid w.vecs (VOp.push.toOp v ty) := ⟨⟨d, hv, hl⟩, by intro u i dp hh; cases hh⟩
   obtain ⟨hinv', hnub⟩ := Hist.step_inv cfg _ w hinv hcore hvalid
@@ -245,7 +254,7 @@ theorem step_push (cfg : Cfg) (v ty : Nat) (w : World) (s : Spec) (h : Rel v ty 
         ne_eq, not_true_eq_false, if_false, hex]
     refine ⟨_, Spec.Step.push s d1.cap (room_ok hg.wf habs hcp hbk hr), ?_, hnub⟩
     rw [hstep] at hinv' ⊢
-    refine Rel.mk' hinv' (by simpa [World.bump] using hf) (d1.pushCell (.val w.created)) (set_get w.bump v d _ hvb)
+    refine Rel.mk' (bg := bg) hinv' (by frame_tac hbg) (by simpa [World.bump] using hf) (d1.pushCell (.val w.created)) (set_get w.bump v d _ hvb)
       (by simp [VecSt.pushCell, hl1, hl]) (by simp [VecSt.pushCell, hty1, hty]) ?_ (by simp [World.bump, hn])
       (by simp [VecSt.pushCell]) (by simp [VecSt.pushCell, hbk1, hbk])
     rw [VecSt.pushCell_abs d1 _ hw1, ha, habs, hn]; simp
@@ -259,16 +268,16 @@ theorem step_push (cfg : Cfg) (v ty : Nat) (w : World) (s : Spec) (h : Rel v ty 
         ne_eq, not_true_eq_false, if_false, pushUnchecked, WM.onUnwind, vecOp, hr, WM.lift, valDrop, dropElem, WM.modify_apply]
       cases d.hasDrop <;> simp [tick, logDrop, WM.pure_apply]
     rw [hstep] at hinv' ⊢
-    exact Rel.mk' hinv' rfl d (by simpa [logDrop] using hvb) hl hty habs (by simp [logDrop, World.bump, hn]) hcp hbk
+    exact Rel.mk' (bg := bg) hinv' (by frame_tac hbg) rfl d (by simpa [logDrop] using hvb) hl hty habs (by simp [logDrop, World.bump, hn]) hcp hbk
   | ub m =>
     have := reserveOne_notUb d
     rw [hr] at this; exact this.elim
 
 /-- `push` through the typed view -/
-theorem step_tpush (cfg : Cfg) (v ty : Nat) (w : World) (s : Spec) (h : Rel v ty w s) :
-    ∃ s', Spec.Step s .tpush s' ∧ Rel v ty (step cfg (VOp.tpush.toOp v ty) w).1 s' ∧
+theorem step_tpush (cfg : Cfg) (v ty : Nat) (w : World) (s : Spec) (h : Rel bg v ty w s) :
+    ∃ s', Spec.Step s .tpush s' ∧ Rel bg v ty (step cfg (VOp.tpush.toOp v ty) w).1 s' ∧
       (step cfg (VOp.tpush.toOp v ty) w).2.notUb := by
-  obtain ⟨hinv, hf, ⟨d, hv, hl, hty, habs, hcp, hbk⟩, hn⟩ := h
+  obtain ⟨hinv, hf, ⟨d, hv, hl, hty, habs, hcp, hbk⟩, hn, hbg⟩ := h
   have hcore : Hist.Core (VOp.tpush.toOp v ty) := trivial
   have hvalid : Hist.Valid w.vecs (VOp.tpush.toOp v ty) := ⟨d, hv, hl⟩
   obtain ⟨hinv', hnub⟩ := Hist.step_inv cfg _ w hinv hcore hvalid
@@ -285,7 +294,7 @@ theorem step_tpush (cfg : Cfg) (v ty : Nat) (w : World) (s : Spec) (h : Rel v ty
       simp only [VOp.toOp, step, WM.bind_apply, getVec_ok w v d hv hl, fresh, WM.pure_apply, hb, hex]
     refine ⟨_, Spec.Step.tpush s d1.cap (room_ok hg.wf habs hcp hbk hr), ?_, hnub⟩
     rw [hstep] at hinv' ⊢
-    refine Rel.mk' hinv' (by simpa [World.bump] using hf) (d1.pushCell (.val w.created)) (set_get w.bump v d _ hvb)
+    refine Rel.mk' (bg := bg) hinv' (by frame_tac hbg) (by simpa [World.bump] using hf) (d1.pushCell (.val w.created)) (set_get w.bump v d _ hvb)
       (by simp [VecSt.pushCell, hl1, hl]) (by simp [VecSt.pushCell, hty1, hty]) ?_ (by simp [World.bump, hn])
       (by simp [VecSt.pushCell]) (by simp [VecSt.pushCell, hbk1, hbk])
     rw [VecSt.pushCell_abs d1 _ hw1, ha, habs, hn]; simp
@@ -297,7 +306,7 @@ theorem step_tpush (cfg : Cfg) (v ty : Nat) (w : World) (s : Spec) (h : Rel v ty
         pushUnchecked, WM.onUnwind, vecOp, hr, WM.lift, valDrop, dropElem, WM.modify_apply]
       cases d.hasDrop <;> simp [tick, logDrop, WM.pure_apply]
     rw [hstep] at hinv' ⊢
-    exact Rel.mk' hinv' rfl d (by simpa [logDrop] using hvb) hl hty habs (by simp [logDrop, World.bump, hn]) hcp hbk
+    exact Rel.mk' (bg := bg) hinv' (by frame_tac hbg) rfl d (by simpa [logDrop] using hvb) hl hty habs (by simp [logDrop, World.bump, hn]) hcp hbk
   | ub m =>
     have := reserveOne_notUb d
     rw [hr] at this; exact this.elim
@@ -305,12 +314,12 @@ theorem step_tpush (cfg : Cfg) (v ty : Nat) (w : World) (s : Spec) (h : Rel v ty
 /-- the shared part of `insert` / typed `insert`: what `insert_unchecked` of a fresh wrapper does -/
 theorem insert_core (v ty i : Nat) (w : World) (s : Spec) (d : VecSt) (hinv : w.Inv) (hf : w.fault = none)
     (hv : w.vecs[v]? = some d) (hl : d.live = true) (hty : d.ty = ty) (habs : d.abs = s.items.map Cell.val)
-    (hcp : d.cap = s.cap) (hbk : VecSt.resizable d.bk = !s.fixed)
+    (hcp : d.cap = s.cap) (hbk : VecSt.resizable d.bk = !s.fixed) (hbg : ∀ u, u ≠ v → w.vecs[u]? = bg u)
     (hn : w.created = s.next) (hinv' : (insertUnchecked v i (.wrapper w.created ty) w.bump).1.Inv) :
     ∃ s', ((∃ c, s' = { s with items := s.items.insertIdx i s.next, next := s.next + 1, cap := c } ∧
               i ≤ s.items.length ∧ s.Room (some c)) ∨
            (s' = { s with next := s.next + 1 } ∧ (s.items.length < i ∨ s.Room none))) ∧
-      Rel v ty (insertUnchecked v i (.wrapper w.created ty) w.bump).1 s' := by
+      Rel bg v ty (insertUnchecked v i (.wrapper w.created ty) w.bump).1 s' := by
   have hg := hinv.good v d hv
   have hvb : w.bump.vecs[v]? = some d := hv
   have hlen := abs_len hg.wf habs
@@ -322,7 +331,7 @@ theorem insert_core (v ty i : Nat) (w : World) (s : Spec) (d : VecSt) (hinv : w.
       have hex := insertUnchecked_plain w.bump v i w.created (.wrapper w.created ty) (Val.Plain.wrapper _ _) d d1 es hvb hl hg.wf hi hr
       refine ⟨_, Or.inl ⟨d1.cap, rfl, by omega, room_ok hg.wf habs hcp hbk hr⟩, ?_⟩
       rw [hex] at hinv' ⊢
-      refine Rel.mk' hinv' (by simpa [World.bump] using hf) (d1.insertAt i (.val w.created)) (set_get w.bump v d _ hvb)
+      refine Rel.mk' (bg := bg) hinv' (by frame_tac hbg) (by simpa [World.bump] using hf) (d1.insertAt i (.val w.created)) (set_get w.bump v d _ hvb)
         (by simp [VecSt.insertAt, hl1, hl]) (by simp [VecSt.insertAt, hty1, hty]) ?_ (by simp [World.bump, hn])
         (by simp [VecSt.insertAt]) (by simp [VecSt.insertAt, hbk1, hbk])
       rw [VecSt.insertAt_abs d1 i _ hw1 (by omega), ha, habs, hn, map_insertIdx']
@@ -335,7 +344,7 @@ theorem insert_core (v ty i : Nat) (w : World) (s : Spec) (d : VecSt) (hinv : w.
           WM.lift, valDrop, dropElem, WM.modify_apply]
         cases d.hasDrop <;> simp [tick, logDrop, WM.pure_apply]
       rw [hex] at hinv' ⊢
-      exact Rel.mk' hinv' rfl d (by simpa [logDrop] using hvb) hl hty habs (by simp [logDrop, World.bump, hn]) hcp hbk
+      exact Rel.mk' (bg := bg) hinv' (by frame_tac hbg) rfl d (by simpa [logDrop] using hvb) hl hty habs (by simp [logDrop, World.bump, hn]) hcp hbk
     | ub m =>
       have := reserveOne_notUb d
       rw [hr] at this; exact this.elim
@@ -347,17 +356,17 @@ theorem insert_core (v ty i : Nat) (w : World) (s : Spec) (d : VecSt) (hinv : w.
         valDrop, dropElem, WM.modify_apply]
       cases d.hasDrop <;> simp [tick, logDrop, WM.pure_apply]
     rw [hex] at hinv' ⊢
-    exact Rel.mk' hinv' rfl d (by simpa [logDrop] using hvb) hl hty habs (by simp [logDrop, World.bump, hn]) hcp hbk
+    exact Rel.mk' (bg := bg) hinv' (by frame_tac hbg) rfl d (by simpa [logDrop] using hvb) hl hty habs (by simp [logDrop, World.bump, hn]) hcp hbk
 
 theorem fst_bind_pure {α β} (m : WM α) (b : β) (w : World) : ((do let _ ← m; pure b : WM β) w).1 = (m w).1 := by
   simp only [WM.bind_apply]
   cases m w with
   | mk w' r => cases r <;> rfl
 
-theorem step_insert (cfg : Cfg) (v ty i : Nat) (w : World) (s : Spec) (h : Rel v ty w s) :
-    ∃ s', Spec.Step s (.insert i) s' ∧ Rel v ty (step cfg ((VOp.insert i).toOp v ty) w).1 s' ∧
+theorem step_insert (cfg : Cfg) (v ty i : Nat) (w : World) (s : Spec) (h : Rel bg v ty w s) :
+    ∃ s', Spec.Step s (.insert i) s' ∧ Rel bg v ty (step cfg ((VOp.insert i).toOp v ty) w).1 s' ∧
       (step cfg ((VOp.insert i).toOp v ty) w).2.notUb := by
-  obtain ⟨hinv, hf, ⟨d, hv, hl, hty, habs, hcp, hbk⟩, hn⟩ := h
+  obtain ⟨hinv, hf, ⟨d, hv, hl, hty, habs, hcp, hbk⟩, hn, hbg⟩ := h
   have hcore : Hist.Core ((VOp.insert i).toOp v ty) := trivial
   have hvalid : Hist.Valid w.vecs ((VOp.insert i).toOp v ty) := ⟨⟨d, hv, hl⟩, by intro u j dp hh; cases hh⟩
   obtain ⟨hinv', hnub⟩ := Hist.step_inv cfg _ w hinv hcore hvalid
@@ -370,16 +379,16 @@ theorem step_insert (cfg : Cfg) (v ty i : Nat) (w : World) (s : Spec) (h : Rel v
         ne_eq, not_true_eq_false, if_false]
     rw [this, fst_bind_pure]
   rw [hfst] at hinv' ⊢
-  obtain ⟨s', hs', hrel⟩ := insert_core v ty i w s d hinv hf hv hl hty habs hcp hbk hn hinv'
+  obtain ⟨s', hs', hrel⟩ := insert_core v ty i w s d hinv hf hv hl hty habs hcp hbk hbg hn hinv'
   refine ⟨s', ?_, hrel, hnub⟩
   rcases hs' with ⟨c, rfl, hi, hroom⟩ | ⟨rfl, hno⟩
   · exact Spec.Step.insert s i c hi hroom
   · exact Spec.Step.insertRefused s i hno
 
-theorem step_tinsert (cfg : Cfg) (v ty i : Nat) (w : World) (s : Spec) (h : Rel v ty w s) :
-    ∃ s', Spec.Step s (.tinsert i) s' ∧ Rel v ty (step cfg ((VOp.tinsert i).toOp v ty) w).1 s' ∧
+theorem step_tinsert (cfg : Cfg) (v ty i : Nat) (w : World) (s : Spec) (h : Rel bg v ty w s) :
+    ∃ s', Spec.Step s (.tinsert i) s' ∧ Rel bg v ty (step cfg ((VOp.tinsert i).toOp v ty) w).1 s' ∧
       (step cfg ((VOp.tinsert i).toOp v ty) w).2.notUb := by
-  obtain ⟨hinv, hf, ⟨d, hv, hl, hty, habs, hcp, hbk⟩, hn⟩ := h
+  obtain ⟨hinv, hf, ⟨d, hv, hl, hty, habs, hcp, hbk⟩, hn, hbg⟩ := h
   have hcore : Hist.Core ((VOp.tinsert i).toOp v ty) := trivial
   have hvalid : Hist.Valid w.vecs ((VOp.tinsert i).toOp v ty) := ⟨d, hv, hl⟩
   obtain ⟨hinv', hnub⟩ := Hist.step_inv cfg _ w hinv hcore hvalid
@@ -390,7 +399,7 @@ theorem step_tinsert (cfg : Cfg) (v ty i : Nat) (w : World) (s : Spec) (h : Rel 
       simp only [VOp.toOp, step, WM.bind_apply, getVec_ok w v d hv hl, fresh, WM.pure_apply, hb, hty]
     rw [this, fst_bind_pure]
   rw [hfst] at hinv' ⊢
-  obtain ⟨s', hs', hrel⟩ := insert_core v ty i w s d hinv hf hv hl hty habs hcp hbk hn hinv'
+  obtain ⟨s', hs', hrel⟩ := insert_core v ty i w s d hinv hf hv hl hty habs hcp hbk hbg hn hinv'
   refine ⟨s', ?_, hrel, hnub⟩
   rcases hs' with ⟨c, rfl, hi, hroom⟩ | ⟨rfl, hno⟩
   · exact Spec.Step.tinsert s i c hi hroom
@@ -412,10 +421,10 @@ theorem cell_of_abs {d : VecSt} {items : List Nat} (hg : d.Good) (habs : d.abs =
   rw [← hget]
   simp [List.getD_eq_getElem?_getD, List.getElem?_eq_getElem hj']
 
-theorem step_remove (cfg : Cfg) (v ty i : Nat) (w : World) (s : Spec) (h : Rel v ty w s) :
-    ∃ s', Spec.Step s (.remove i) s' ∧ Rel v ty (step cfg ((VOp.remove i).toOp v ty) w).1 s' ∧
+theorem step_remove (cfg : Cfg) (v ty i : Nat) (w : World) (s : Spec) (h : Rel bg v ty w s) :
+    ∃ s', Spec.Step s (.remove i) s' ∧ Rel bg v ty (step cfg ((VOp.remove i).toOp v ty) w).1 s' ∧
       (step cfg ((VOp.remove i).toOp v ty) w).2.notUb := by
-  obtain ⟨hinv, hf, ⟨d, hv, hl, hty, habs, hcp, hbk⟩, hn⟩ := h
+  obtain ⟨hinv, hf, ⟨d, hv, hl, hty, habs, hcp, hbk⟩, hn, hbg⟩ := h
   have hcore : Hist.Core ((VOp.remove i).toOp v ty) := trivial
   have hvalid : Hist.Valid w.vecs ((VOp.remove i).toOp v ty) := ⟨⟨d, hv, hl⟩, trivial⟩
   obtain ⟨hinv', hnub⟩ := Hist.step_inv cfg _ w hinv hcore hvalid
@@ -427,7 +436,7 @@ theorem step_remove (cfg : Cfg) (v ty i : Nat) (w : World) (s : Spec) (h : Rel v
     refine ⟨{ s with items := s.items.eraseIdx i }, Spec.Step.remove s i (by omega), ?_, hnub⟩
     simp only [VOp.toOp] at hinv' ⊢
     rw [hex] at hinv' ⊢
-    refine Rel.mk' hinv' (by simpa [logDrop] using hf) (d.removeAt i) (by simpa [logDrop] using set_get w v d _ hv)
+    refine Rel.mk' (bg := bg) hinv' (by frame_tac hbg) (by simpa [logDrop] using hf) (d.removeAt i) (by simpa [logDrop] using set_get w v d _ hv)
       (by simp [VecSt.removeAt, hl]) (by simp [VecSt.removeAt, hty]) ?_ (by simp [logDrop, hn])
       (by simp [VecSt.removeAt, hcp]) (by simp [VecSt.removeAt, hbk])
     rw [VecSt.removeAt_abs d i hg.wf hi, habs, map_eraseIdx']
@@ -435,12 +444,12 @@ theorem step_remove (cfg : Cfg) (v ty i : Nat) (w : World) (s : Spec) (h : Rel v
     have hex : step cfg ((VOp.remove i).toOp v ty) w = ({ w with fault := none }, .panic "Index out of range!") := by
       simp only [VOp.toOp, step, WM.bind_apply, getVec_ok w v d hv hl, hi, if_false, WM.panic_apply]
     rw [hex] at hinv' ⊢
-    exact Rel.mk' hinv' rfl d hv hl hty habs hn hcp hbk
+    exact Rel.mk' (bg := bg) hinv' (by frame_tac hbg) rfl d hv hl hty habs hn hcp hbk
 
-theorem step_swapRemove (cfg : Cfg) (v ty i : Nat) (w : World) (s : Spec) (h : Rel v ty w s) :
-    ∃ s', Spec.Step s (.swapRemove i) s' ∧ Rel v ty (step cfg ((VOp.swapRemove i).toOp v ty) w).1 s' ∧
+theorem step_swapRemove (cfg : Cfg) (v ty i : Nat) (w : World) (s : Spec) (h : Rel bg v ty w s) :
+    ∃ s', Spec.Step s (.swapRemove i) s' ∧ Rel bg v ty (step cfg ((VOp.swapRemove i).toOp v ty) w).1 s' ∧
       (step cfg ((VOp.swapRemove i).toOp v ty) w).2.notUb := by
-  obtain ⟨hinv, hf, ⟨d, hv, hl, hty, habs, hcp, hbk⟩, hn⟩ := h
+  obtain ⟨hinv, hf, ⟨d, hv, hl, hty, habs, hcp, hbk⟩, hn, hbg⟩ := h
   have hcore : Hist.Core ((VOp.swapRemove i).toOp v ty) := trivial
   have hvalid : Hist.Valid w.vecs ((VOp.swapRemove i).toOp v ty) := ⟨⟨d, hv, hl⟩, trivial⟩
   obtain ⟨hinv', hnub⟩ := Hist.step_inv cfg _ w hinv hcore hvalid
@@ -452,7 +461,7 @@ theorem step_swapRemove (cfg : Cfg) (v ty i : Nat) (w : World) (s : Spec) (h : R
     refine ⟨_, Spec.Step.swapRemove s i (by omega), ?_, hnub⟩
     simp only [VOp.toOp] at hinv' ⊢
     rw [hex] at hinv' ⊢
-    refine Rel.mk' hinv' (by simpa [logDrop] using hf) (d.swapRemoveAt i) (by simpa [logDrop] using set_get w v d _ hv)
+    refine Rel.mk' (bg := bg) hinv' (by frame_tac hbg) (by simpa [logDrop] using hf) (d.swapRemoveAt i) (by simpa [logDrop] using set_get w v d _ hv)
       (by simp [VecSt.swapRemoveAt, hl]) (by simp [VecSt.swapRemoveAt, hty]) ?_ (by simp [logDrop, hn])
       (by simp [VecSt.swapRemoveAt, hcp]) (by simp [VecSt.swapRemoveAt, hbk])
     rw [VecSt.swapRemoveAt_abs d i hg.wf hi, habs, cell_of_abs hg habs (d.len - 1) (by omega), hlen]
@@ -461,12 +470,12 @@ theorem step_swapRemove (cfg : Cfg) (v ty i : Nat) (w : World) (s : Spec) (h : R
     have hex : step cfg ((VOp.swapRemove i).toOp v ty) w = ({ w with fault := none }, .panic "Index out of range!") := by
       simp only [VOp.toOp, step, WM.bind_apply, getVec_ok w v d hv hl, hi, if_false, WM.panic_apply]
     rw [hex] at hinv' ⊢
-    exact Rel.mk' hinv' rfl d hv hl hty habs hn hcp hbk
+    exact Rel.mk' (bg := bg) hinv' (by frame_tac hbg) rfl d hv hl hty habs hn hcp hbk
 
-theorem step_pop (cfg : Cfg) (v ty : Nat) (w : World) (s : Spec) (h : Rel v ty w s) :
-    ∃ s', Spec.Step s .pop s' ∧ Rel v ty (step cfg (VOp.pop.toOp v ty) w).1 s' ∧
+theorem step_pop (cfg : Cfg) (v ty : Nat) (w : World) (s : Spec) (h : Rel bg v ty w s) :
+    ∃ s', Spec.Step s .pop s' ∧ Rel bg v ty (step cfg (VOp.pop.toOp v ty) w).1 s' ∧
       (step cfg (VOp.pop.toOp v ty) w).2.notUb := by
-  obtain ⟨hinv, hf, ⟨d, hv, hl, hty, habs, hcp, hbk⟩, hn⟩ := h
+  obtain ⟨hinv, hf, ⟨d, hv, hl, hty, habs, hcp, hbk⟩, hn, hbg⟩ := h
   have hcore : Hist.Core (VOp.pop.toOp v ty) := trivial
   have hvalid : Hist.Valid w.vecs (VOp.pop.toOp v ty) := ⟨⟨d, hv, hl⟩, trivial⟩
   obtain ⟨hinv', hnub⟩ := Hist.step_inv cfg _ w hinv hcore hvalid
@@ -480,12 +489,12 @@ theorem step_pop (cfg : Cfg) (v ty : Nat) (w : World) (s : Spec) (h : Rel v ty w
     have : s.items = [] := by cases hs : s.items with
       | nil => rfl
       | cons x xs => rw [hs] at hlen; simp at hlen; omega
-    exact Rel.mk' hinv hf d hv hl hty (by rw [habs, this]; rfl) hn hcp hbk
+    exact Rel.mk' (bg := bg) hinv (by frame_tac hbg) hf d hv hl hty (by rw [habs, this]; rfl) hn hcp hbk
   · have hc := cell_of_abs hg habs (d.len - 1) (by omega)
     have hex := pop_drop_exec cfg w v _ d hv hl hg.wf h0 hc hf
     simp only [VOp.toOp] at hinv' ⊢
     rw [hex] at hinv' ⊢
-    refine Rel.mk' hinv' (by simpa [logDrop] using hf) { d with len := d.len - 1 } (by simpa [logDrop] using set_get w v d _ hv)
+    refine Rel.mk' (bg := bg) hinv' (by frame_tac hbg) (by simpa [logDrop] using hf) { d with len := d.len - 1 } (by simpa [logDrop] using set_get w v d _ hv)
       hl hty ?_ (by simp [logDrop, hn]) hcp hbk
     have h1 := hg.wf.len_le
     have : ({ d with len := d.len - 1 } : VecSt).abs = d.abs.take (d.len - 1) := by
@@ -493,10 +502,10 @@ theorem step_pop (cfg : Cfg) (v ty : Nat) (w : World) (s : Spec) (h : Rel v ty w
       congr 1; omega
     rw [this, habs, hlen, List.map_take]
 
-theorem step_clear (cfg : Cfg) (v ty : Nat) (w : World) (s : Spec) (h : Rel v ty w s) :
-    ∃ s', Spec.Step s .clear s' ∧ Rel v ty (step cfg (VOp.clear.toOp v ty) w).1 s' ∧
+theorem step_clear (cfg : Cfg) (v ty : Nat) (w : World) (s : Spec) (h : Rel bg v ty w s) :
+    ∃ s', Spec.Step s .clear s' ∧ Rel bg v ty (step cfg (VOp.clear.toOp v ty) w).1 s' ∧
       (step cfg (VOp.clear.toOp v ty) w).2.notUb := by
-  obtain ⟨hinv, hf, ⟨d, hv, hl, hty, habs, hcp, hbk⟩, hn⟩ := h
+  obtain ⟨hinv, hf, ⟨d, hv, hl, hty, habs, hcp, hbk⟩, hn, hbg⟩ := h
   have hcore : Hist.Core (VOp.clear.toOp v ty) := trivial
   have hvalid : Hist.Valid w.vecs (VOp.clear.toOp v ty) := ⟨d, hv, hl⟩
   obtain ⟨hinv', hnub⟩ := Hist.step_inv cfg _ w hinv hcore hvalid
@@ -506,13 +515,13 @@ theorem step_clear (cfg : Cfg) (v ty : Nat) (w : World) (s : Spec) (h : Rel v ty
   simp only [VOp.toOp] at hinv' ⊢
   rw [hex] at hinv' ⊢
   have hlt : v < w.vecs.length := (List.getElem?_eq_some_iff.mp hv).1
-  refine Rel.mk' hinv' (by simpa using hf) { d with len := 0 } (by simp [World.upd, hlt]) hl hty (by simp [VecSt.abs])
+  refine Rel.mk' (bg := bg) hinv' (by frame_tac hbg) (by simpa using hf) { d with len := 0 } (by simp [World.upd, hlt]) hl hty (by simp [VecSt.abs])
     (by simp [hn]) hcp hbk
 
-theorem step_drain (cfg : Cfg) (v ty a b : Nat) (w : World) (s : Spec) (h : Rel v ty w s) :
-    ∃ s', Spec.Step s (.drain a b) s' ∧ Rel v ty (step cfg ((VOp.drain a b).toOp v ty) w).1 s' ∧
+theorem step_drain (cfg : Cfg) (v ty a b : Nat) (w : World) (s : Spec) (h : Rel bg v ty w s) :
+    ∃ s', Spec.Step s (.drain a b) s' ∧ Rel bg v ty (step cfg ((VOp.drain a b).toOp v ty) w).1 s' ∧
       (step cfg ((VOp.drain a b).toOp v ty) w).2.notUb := by
-  obtain ⟨hinv, hf, ⟨d, hv, hl, hty, habs, hcp, hbk⟩, hn⟩ := h
+  obtain ⟨hinv, hf, ⟨d, hv, hl, hty, habs, hcp, hbk⟩, hn, hbg⟩ := h
   have hcore : Hist.Core ((VOp.drain a b).toOp v ty) := trivial
   have hvalid : Hist.Valid w.vecs ((VOp.drain a b).toOp v ty) := ⟨⟨d, hv, hl⟩, by intro p hp; cases hp⟩
   obtain ⟨hinv', hnub⟩ := Hist.step_inv cfg _ w hinv hcore hvalid
@@ -540,7 +549,7 @@ theorem step_drain (cfg : Cfg) (v ty a b : Nat) (w : World) (s : Spec) (h : Rel 
             (w.upd v { d with len := a }) = _ from hex]
     refine ⟨_, Spec.Step.drain s a b ⟨hab, by omega⟩, ?_, hnub⟩
     rw [hstep] at hinv' ⊢
-    refine Rel.mk' hinv' (by simpa using hf) (d0.drainClose a b d.len) (by simp [World.upd, hlt]) hl hty ?_ (by simp [hn])
+    refine Rel.mk' (bg := bg) hinv' (by frame_tac hbg) (by simpa using hf) (d0.drainClose a b d.len) (by simp [World.upd, hlt]) hl hty ?_ (by simp [hn])
       (by simp [VecSt.drainClose, d0, hcp]) (by simp [VecSt.drainClose, d0, hbk])
     rw [VecSt.drainClose_abs d0 a b d.len hab hbl h1]
     have : d.cells.take d.len = s.items.map Cell.val := habs
@@ -556,7 +565,7 @@ theorem step_drain (cfg : Cfg) (v ty a b : Nat) (w : World) (s : Spec) (h : Rel 
       · simp [hab, WM.lift]
     refine ⟨s, Spec.Step.drainOut s a b (by omega), ?_, hnub⟩
     rw [hex] at hinv' ⊢
-    exact Rel.mk' hinv' rfl d hv hl hty habs hn hcp hbk
+    exact Rel.mk' (bg := bg) hinv' (by frame_tac hbg) rfl d hv hl hty habs hn hcp hbk
 
 /-- typed `remove(i)` with `i < len`: the element leaves into the caller's hands, nothing is destroyed -/
 theorem tremove_exec (cfg : Cfg) (w : World) (v i id : Nat) (d : VecSt)
@@ -604,10 +613,10 @@ theorem tpop_exec (cfg : Cfg) (w : World) (v id : Nat) (d : VecSt)
   simp [step, getVec, hl, hne, hlt, hd, setLen, sinkHandle, hSlot, readElem, VecSt.readElem_ok, hb1, hc,
     hConsume, World.upd, hold]
 
-theorem step_tremove (cfg : Cfg) (v ty i : Nat) (w : World) (s : Spec) (h : Rel v ty w s) :
-    ∃ s', Spec.Step s (.tremove i) s' ∧ Rel v ty (step cfg ((VOp.tremove i).toOp v ty) w).1 s' ∧
+theorem step_tremove (cfg : Cfg) (v ty i : Nat) (w : World) (s : Spec) (h : Rel bg v ty w s) :
+    ∃ s', Spec.Step s (.tremove i) s' ∧ Rel bg v ty (step cfg ((VOp.tremove i).toOp v ty) w).1 s' ∧
       (step cfg ((VOp.tremove i).toOp v ty) w).2.notUb := by
-  obtain ⟨hinv, hf, ⟨d, hv, hl, hty, habs, hcp, hbk⟩, hn⟩ := h
+  obtain ⟨hinv, hf, ⟨d, hv, hl, hty, habs, hcp, hbk⟩, hn, hbg⟩ := h
   have hcore : Hist.Core ((VOp.tremove i).toOp v ty) := trivial
   have hvalid : Hist.Valid w.vecs ((VOp.tremove i).toOp v ty) := ⟨d, hv, hl⟩
   obtain ⟨hinv', hnub⟩ := Hist.step_inv cfg _ w hinv hcore hvalid
@@ -619,7 +628,7 @@ theorem step_tremove (cfg : Cfg) (v ty i : Nat) (w : World) (s : Spec) (h : Rel 
     refine ⟨{ s with items := s.items.eraseIdx i }, Spec.Step.tremove s i (by omega), ?_, hnub⟩
     simp only [VOp.toOp] at hinv' ⊢
     rw [hex] at hinv' ⊢
-    refine Rel.mk' hinv' hf (d.removeAt i) (set_get w v d _ hv)
+    refine Rel.mk' (bg := bg) hinv' (by frame_tac hbg) hf (d.removeAt i) (set_get w v d _ hv)
       (by simp [VecSt.removeAt, hl]) (by simp [VecSt.removeAt, hty]) ?_ hn
       (by simp [VecSt.removeAt, hcp]) (by simp [VecSt.removeAt, hbk])
     rw [VecSt.removeAt_abs d i hg.wf hi, habs, map_eraseIdx']
@@ -627,12 +636,12 @@ theorem step_tremove (cfg : Cfg) (v ty i : Nat) (w : World) (s : Spec) (h : Rel 
     have hex : step cfg ((VOp.tremove i).toOp v ty) w = ({ w with fault := none }, .panic "Index out of range!") := by
       simp only [VOp.toOp, step, WM.bind_apply, getVec_ok w v d hv hl, hi, if_false, WM.panic_apply]
     rw [hex] at hinv' ⊢
-    exact Rel.mk' hinv' rfl d hv hl hty habs hn hcp hbk
+    exact Rel.mk' (bg := bg) hinv' (by frame_tac hbg) rfl d hv hl hty habs hn hcp hbk
 
-theorem step_tswapRemove (cfg : Cfg) (v ty i : Nat) (w : World) (s : Spec) (h : Rel v ty w s) :
-    ∃ s', Spec.Step s (.tswapRemove i) s' ∧ Rel v ty (step cfg ((VOp.tswapRemove i).toOp v ty) w).1 s' ∧
+theorem step_tswapRemove (cfg : Cfg) (v ty i : Nat) (w : World) (s : Spec) (h : Rel bg v ty w s) :
+    ∃ s', Spec.Step s (.tswapRemove i) s' ∧ Rel bg v ty (step cfg ((VOp.tswapRemove i).toOp v ty) w).1 s' ∧
       (step cfg ((VOp.tswapRemove i).toOp v ty) w).2.notUb := by
-  obtain ⟨hinv, hf, ⟨d, hv, hl, hty, habs, hcp, hbk⟩, hn⟩ := h
+  obtain ⟨hinv, hf, ⟨d, hv, hl, hty, habs, hcp, hbk⟩, hn, hbg⟩ := h
   have hcore : Hist.Core ((VOp.tswapRemove i).toOp v ty) := trivial
   have hvalid : Hist.Valid w.vecs ((VOp.tswapRemove i).toOp v ty) := ⟨d, hv, hl⟩
   obtain ⟨hinv', hnub⟩ := Hist.step_inv cfg _ w hinv hcore hvalid
@@ -644,7 +653,7 @@ theorem step_tswapRemove (cfg : Cfg) (v ty i : Nat) (w : World) (s : Spec) (h : 
     refine ⟨_, Spec.Step.tswapRemove s i (by omega), ?_, hnub⟩
     simp only [VOp.toOp] at hinv' ⊢
     rw [hex] at hinv' ⊢
-    refine Rel.mk' hinv' hf (d.swapRemoveAt i) (set_get w v d _ hv)
+    refine Rel.mk' (bg := bg) hinv' (by frame_tac hbg) hf (d.swapRemoveAt i) (set_get w v d _ hv)
       (by simp [VecSt.swapRemoveAt, hl]) (by simp [VecSt.swapRemoveAt, hty]) ?_ hn
       (by simp [VecSt.swapRemoveAt, hcp]) (by simp [VecSt.swapRemoveAt, hbk])
     rw [VecSt.swapRemoveAt_abs d i hg.wf hi, habs, cell_of_abs hg habs (d.len - 1) (by omega), hlen]
@@ -653,12 +662,12 @@ theorem step_tswapRemove (cfg : Cfg) (v ty i : Nat) (w : World) (s : Spec) (h : 
     have hex : step cfg ((VOp.tswapRemove i).toOp v ty) w = ({ w with fault := none }, .panic "Index out of range!") := by
       simp only [VOp.toOp, step, WM.bind_apply, getVec_ok w v d hv hl, hi, if_false, WM.panic_apply]
     rw [hex] at hinv' ⊢
-    exact Rel.mk' hinv' rfl d hv hl hty habs hn hcp hbk
+    exact Rel.mk' (bg := bg) hinv' (by frame_tac hbg) rfl d hv hl hty habs hn hcp hbk
 
-theorem step_tpop (cfg : Cfg) (v ty : Nat) (w : World) (s : Spec) (h : Rel v ty w s) :
-    ∃ s', Spec.Step s .tpop s' ∧ Rel v ty (step cfg (VOp.tpop.toOp v ty) w).1 s' ∧
+theorem step_tpop (cfg : Cfg) (v ty : Nat) (w : World) (s : Spec) (h : Rel bg v ty w s) :
+    ∃ s', Spec.Step s .tpop s' ∧ Rel bg v ty (step cfg (VOp.tpop.toOp v ty) w).1 s' ∧
       (step cfg (VOp.tpop.toOp v ty) w).2.notUb := by
-  obtain ⟨hinv, hf, ⟨d, hv, hl, hty, habs, hcp, hbk⟩, hn⟩ := h
+  obtain ⟨hinv, hf, ⟨d, hv, hl, hty, habs, hcp, hbk⟩, hn, hbg⟩ := h
   have hcore : Hist.Core (VOp.tpop.toOp v ty) := trivial
   have hvalid : Hist.Valid w.vecs (VOp.tpop.toOp v ty) := ⟨d, hv, hl⟩
   obtain ⟨hinv', hnub⟩ := Hist.step_inv cfg _ w hinv hcore hvalid
@@ -672,12 +681,12 @@ theorem step_tpop (cfg : Cfg) (v ty : Nat) (w : World) (s : Spec) (h : Rel v ty 
     have : s.items = [] := by cases hs : s.items with
       | nil => rfl
       | cons x xs => rw [hs] at hlen; simp at hlen; omega
-    exact Rel.mk' hinv hf d hv hl hty (by rw [habs, this]; rfl) hn hcp hbk
+    exact Rel.mk' (bg := bg) hinv (by frame_tac hbg) hf d hv hl hty (by rw [habs, this]; rfl) hn hcp hbk
   · have hc := cell_of_abs hg habs (d.len - 1) (by omega)
     have hex := tpop_exec cfg w v _ d hv hl hg.wf h0 hc
     simp only [VOp.toOp] at hinv' ⊢
     rw [hex] at hinv' ⊢
-    refine Rel.mk' hinv' hf { d with len := d.len - 1 } (set_get w v d _ hv) hl hty ?_ hn hcp hbk
+    refine Rel.mk' (bg := bg) hinv' (by frame_tac hbg) hf { d with len := d.len - 1 } (set_get w v d _ hv) hl hty ?_ hn hcp hbk
     have h1 := hg.wf.len_le
     have : ({ d with len := d.len - 1 } : VecSt).abs = d.abs.take (d.len - 1) := by
       simp only [VecSt.abs, List.take_take]
@@ -686,7 +695,7 @@ theorem step_tpop (cfg : Cfg) (v ty : Nat) (w : World) (s : Spec) (h : Rel v ty 
 
 /-- a capacity request on `v` (`vecOp`): the items, type, storage kind stay; what the request does to the capacity is
 the caller's business -/
-theorem step_capOp (cfg : Cfg) (v ty : Nat) (w : World) (s : Spec) (h : Rel v ty w s) (op : VOp)
+theorem step_capOp (cfg : Cfg) (v ty : Nat) (w : World) (s : Spec) (h : Rel bg v ty w s) (op : VOp)
     (f : VecSt → Res (VecSt × List Event))
     (hop : step cfg (op.toOp v ty) w = (do vecOp v f; pure [] : WM Out) w)
     (hcore : Hist.Core (op.toOp v ty))
@@ -696,8 +705,8 @@ theorem step_capOp (cfg : Cfg) (v ty : Nat) (w : World) (s : Spec) (h : Rel v ty
       d'.abs = d.abs ∧ d'.ty = d.ty ∧ d'.bk = d.bk ∧ d'.live = d.live ∧ Spec.Step s op { s with cap := d'.cap })
     (hpanic : ∀ d m, d.WF → s.items.length = d.len → d.cap = s.cap → VecSt.resizable d.bk = !s.fixed →
       f d = .panic m → Spec.Step s op s) :
-    ∃ s', Spec.Step s op s' ∧ Rel v ty (step cfg (op.toOp v ty) w).1 s' ∧ (step cfg (op.toOp v ty) w).2.notUb := by
-  obtain ⟨hinv, hf, ⟨d, hv, hl, hty, habs, hcp, hbk⟩, hn⟩ := h
+    ∃ s', Spec.Step s op s' ∧ Rel bg v ty (step cfg (op.toOp v ty) w).1 s' ∧ (step cfg (op.toOp v ty) w).2.notUb := by
+  obtain ⟨hinv, hf, ⟨d, hv, hl, hty, habs, hcp, hbk⟩, hn, hbg⟩ := h
   obtain ⟨hinv', hnub⟩ := Hist.step_inv cfg _ w hinv hcore (hvalid d hv hl hbk)
   have hg := hinv.good v d hv
   have hlen := abs_len hg.wf habs
@@ -713,7 +722,7 @@ theorem step_capOp (cfg : Cfg) (v ty : Nat) (w : World) (s : Spec) (h : Rel v ty
       rfl
     refine ⟨_, hstep, ?_, hnub⟩
     rw [hex] at hinv' ⊢
-    exact Rel.mk' hinv' hf d' (by simp [World.upd, hlt]) (by rw [hl', hl]) (by rw [hty', hty]) (by rw [ha, habs]) hn rfl
+    exact Rel.mk' (bg := bg) hinv' (by frame_tac hbg) hf d' (by simp [World.upd, hlt]) (by rw [hl', hl]) (by rw [hty', hty]) (by rw [ha, habs]) hn rfl
       (by rw [hbk', hbk])
   | panic m =>
     have hex : step cfg (op.toOp v ty) w = ({ w with fault := none }, .panic m) := by
@@ -721,7 +730,7 @@ theorem step_capOp (cfg : Cfg) (v ty : Nat) (w : World) (s : Spec) (h : Rel v ty
       simp only [WM.bind_apply, vecOp_panic w v d f m hv hl hfd]
     refine ⟨s, hpanic d m hg.wf hlen hcp hbk hfd, ?_, hnub⟩
     rw [hex] at hinv' ⊢
-    exact Rel.mk' hinv' rfl d hv hl hty habs hn hcp hbk
+    exact Rel.mk' (bg := bg) hinv' (by frame_tac hbg) rfl d hv hl hty habs hn hcp hbk
   | ub m =>
     have hex : step cfg (op.toOp v ty) w = (w, .ub m) := by
       rw [hop]
@@ -732,8 +741,8 @@ theorem step_capOp (cfg : Cfg) (v ty : Nat) (w : World) (s : Spec) (h : Rel v ty
 theorem resizable_of_not_fixed {d : VecSt} {s : Spec} (hbk : VecSt.resizable d.bk = !s.fixed) (hfx : s.fixed = false) :
     VecSt.resizable d.bk = true := by rw [hbk, hfx]; rfl
 
-theorem step_reserve (cfg : Cfg) (v ty n : Nat) (w : World) (s : Spec) (h : Rel v ty w s) :
-    ∃ s', Spec.Step s (.reserve n) s' ∧ Rel v ty (step cfg ((VOp.reserve n).toOp v ty) w).1 s' ∧
+theorem step_reserve (cfg : Cfg) (v ty n : Nat) (w : World) (s : Spec) (h : Rel bg v ty w s) :
+    ∃ s', Spec.Step s (.reserve n) s' ∧ Rel bg v ty (step cfg ((VOp.reserve n).toOp v ty) w).1 s' ∧
       (step cfg ((VOp.reserve n).toOp v ty) w).2.notUb := by
   refine step_capOp cfg v ty w s h (.reserve n) (fun x => x.reserve n) rfl trivial
     (fun d hv hl _ => ⟨d, hv, hl⟩) ?_ ?_
@@ -773,8 +782,8 @@ theorem step_reserve (cfg : Cfg) (v ty n : Nat) (w : World) (s : Spec) (h : Rel 
       | ub m' => rw [hca] at hfd; cases hfd
     · exact Spec.Step.reserveRefused s n (by omega)
 
-theorem step_reserveExact (cfg : Cfg) (v ty n : Nat) (w : World) (s : Spec) (h : Rel v ty w s) (hfx : s.fixed = false) :
-    ∃ s', Spec.Step s (.reserveExact n) s' ∧ Rel v ty (step cfg ((VOp.reserveExact n).toOp v ty) w).1 s' ∧
+theorem step_reserveExact (cfg : Cfg) (v ty n : Nat) (w : World) (s : Spec) (h : Rel bg v ty w s) (hfx : s.fixed = false) :
+    ∃ s', Spec.Step s (.reserveExact n) s' ∧ Rel bg v ty (step cfg ((VOp.reserveExact n).toOp v ty) w).1 s' ∧
       (step cfg ((VOp.reserveExact n).toOp v ty) w).2.notUb := by
   refine step_capOp cfg v ty w s h (.reserveExact n) (fun x => x.reserveExact n) rfl trivial
     (fun d hv hl hbk => ⟨d, hv, hl, resizable_of_not_fixed hbk hfx⟩) ?_ ?_
@@ -807,8 +816,8 @@ theorem step_reserveExact (cfg : Cfg) (v ty n : Nat) (w : World) (s : Spec) (h :
     · exact Spec.Step.reserveExactFits s n hfit
     · exact Spec.Step.reserveExactRefused s n (by omega)
 
-theorem step_shrinkToFit (cfg : Cfg) (v ty : Nat) (w : World) (s : Spec) (h : Rel v ty w s) (hfx : s.fixed = false) :
-    ∃ s', Spec.Step s .shrinkToFit s' ∧ Rel v ty (step cfg (VOp.shrinkToFit.toOp v ty) w).1 s' ∧
+theorem step_shrinkToFit (cfg : Cfg) (v ty : Nat) (w : World) (s : Spec) (h : Rel bg v ty w s) (hfx : s.fixed = false) :
+    ∃ s', Spec.Step s .shrinkToFit s' ∧ Rel bg v ty (step cfg (VOp.shrinkToFit.toOp v ty) w).1 s' ∧
       (step cfg (VOp.shrinkToFit.toOp v ty) w).2.notUb := by
   refine step_capOp cfg v ty w s h .shrinkToFit VecSt.shrinkToFit rfl trivial
     (fun d hv hl hbk => ⟨d, hv, hl, resizable_of_not_fixed hbk hfx⟩) ?_ ?_
@@ -821,8 +830,8 @@ theorem step_shrinkToFit (cfg : Cfg) (v ty : Nat) (w : World) (s : Spec) (h : Re
   · intro d m _ _ _ _ _
     exact Spec.Step.shrinkToFitRefused s
 
-theorem step_shrinkTo (cfg : Cfg) (v ty n : Nat) (w : World) (s : Spec) (h : Rel v ty w s) (hfx : s.fixed = false) :
-    ∃ s', Spec.Step s (.shrinkTo n) s' ∧ Rel v ty (step cfg ((VOp.shrinkTo n).toOp v ty) w).1 s' ∧
+theorem step_shrinkTo (cfg : Cfg) (v ty n : Nat) (w : World) (s : Spec) (h : Rel bg v ty w s) (hfx : s.fixed = false) :
+    ∃ s', Spec.Step s (.shrinkTo n) s' ∧ Rel bg v ty (step cfg ((VOp.shrinkTo n).toOp v ty) w).1 s' ∧
       (step cfg ((VOp.shrinkTo n).toOp v ty) w).2.notUb := by
   refine step_capOp cfg v ty w s h (.shrinkTo n) (fun x => x.shrinkTo n) rfl trivial
     (fun d hv hl hbk => ⟨d, hv, hl, resizable_of_not_fixed hbk hfx⟩) ?_ ?_
@@ -851,10 +860,10 @@ theorem tswap_exec (cfg : Cfg) (w : World) (v i j : Nat) (d : VecSt)
     ensure_of_le _ _ (by simp; omega)
   simp [step, getVec, hl, hi, hj, hlt, hd, World.writeCell, VecSt.writeCell_ok, hb1, hb2, e1, e2, World.upd]
 
-theorem step_swap (cfg : Cfg) (v ty i j : Nat) (w : World) (s : Spec) (h : Rel v ty w s) :
-    ∃ s', Spec.Step s (.swap i j) s' ∧ Rel v ty (step cfg ((VOp.swap i j).toOp v ty) w).1 s' ∧
+theorem step_swap (cfg : Cfg) (v ty i j : Nat) (w : World) (s : Spec) (h : Rel bg v ty w s) :
+    ∃ s', Spec.Step s (.swap i j) s' ∧ Rel bg v ty (step cfg ((VOp.swap i j).toOp v ty) w).1 s' ∧
       (step cfg ((VOp.swap i j).toOp v ty) w).2.notUb := by
-  obtain ⟨hinv, hf, ⟨d, hv, hl, hty, habs, hcp, hbk⟩, hn⟩ := h
+  obtain ⟨hinv, hf, ⟨d, hv, hl, hty, habs, hcp, hbk⟩, hn, hbg⟩ := h
   have hcore : Hist.Core ((VOp.swap i j).toOp v ty) := trivial
   have hvalid : Hist.Valid w.vecs ((VOp.swap i j).toOp v ty) := ⟨d, hv, hl⟩
   obtain ⟨hinv', hnub⟩ := Hist.step_inv cfg _ w hinv hcore hvalid
@@ -867,7 +876,7 @@ theorem step_swap (cfg : Cfg) (v ty i j : Nat) (w : World) (s : Spec) (h : Rel v
     refine ⟨_, Spec.Step.swap s i j ⟨by omega, by omega⟩, ?_, hnub⟩
     simp only [VOp.toOp] at hinv' ⊢
     rw [hex] at hinv' ⊢
-    refine Rel.mk' hinv' hf { d with cells := (d.cells.set i (d.cells.get j)).set j (d.cells.get i) }
+    refine Rel.mk' (bg := bg) hinv' (by frame_tac hbg) hf { d with cells := (d.cells.set i (d.cells.get j)).set j (d.cells.get i) }
       (by simp [World.upd, hlt]) hl hty ?_ hn hcp hbk
     show ((d.cells.set i (d.cells.get j)).set j (d.cells.get i)).take d.len = _
     rw [List.take_set, List.take_set]
@@ -878,7 +887,7 @@ theorem step_swap (cfg : Cfg) (v ty i j : Nat) (w : World) (s : Spec) (h : Rel v
     have hex : step cfg ((VOp.swap i j).toOp v ty) w = ({ w with fault := none }, .panic "index out of bounds") := by
       simp only [VOp.toOp, step, WM.bind_apply, getVec_ok w v d hv hl, hij, if_false, WM.panic_apply]
     rw [hex] at hinv' ⊢
-    exact Rel.mk' hinv' rfl d hv hl hty habs hn hcp hbk
+    exact Rel.mk' (bg := bg) hinv' (by frame_tac hbg) rfl d hv hl hty habs hn hcp hbk
 
 /-- typed `*at_mut(i) = fresh` in range, no injected fault: the old value is destroyed, the new one sits at `i` -/
 theorem tassign_exec (cfg : Cfg) (w : World) (v i id : Nat) (d : VecSt)
@@ -894,10 +903,10 @@ theorem tassign_exec (cfg : Cfg) (w : World) (v i id : Nat) (d : VecSt)
   simp [step, getVec, hl, hi, hlt, hd, fresh, readElem, VecSt.readElem_ok, hb1, hc, WM.onUnwind,
     World.dropElem_nofault, hf, World.writeCell, VecSt.writeCell_ok, e1, World.upd, logDrop, World.bump]
 
-theorem step_assign (cfg : Cfg) (v ty i : Nat) (w : World) (s : Spec) (h : Rel v ty w s) :
-    ∃ s', Spec.Step s (.assign i) s' ∧ Rel v ty (step cfg ((VOp.assign i).toOp v ty) w).1 s' ∧
+theorem step_assign (cfg : Cfg) (v ty i : Nat) (w : World) (s : Spec) (h : Rel bg v ty w s) :
+    ∃ s', Spec.Step s (.assign i) s' ∧ Rel bg v ty (step cfg ((VOp.assign i).toOp v ty) w).1 s' ∧
       (step cfg ((VOp.assign i).toOp v ty) w).2.notUb := by
-  obtain ⟨hinv, hf, ⟨d, hv, hl, hty, habs, hcp, hbk⟩, hn⟩ := h
+  obtain ⟨hinv, hf, ⟨d, hv, hl, hty, habs, hcp, hbk⟩, hn, hbg⟩ := h
   have hcore : Hist.Core ((VOp.assign i).toOp v ty) := trivial
   have hvalid : Hist.Valid w.vecs ((VOp.assign i).toOp v ty) := ⟨d, hv, hl⟩
   obtain ⟨hinv', hnub⟩ := Hist.step_inv cfg _ w hinv hcore hvalid
@@ -910,7 +919,7 @@ theorem step_assign (cfg : Cfg) (v ty i : Nat) (w : World) (s : Spec) (h : Rel v
     refine ⟨_, Spec.Step.assign s i (by omega), ?_, hnub⟩
     simp only [VOp.toOp] at hinv' ⊢
     rw [hex] at hinv' ⊢
-    refine Rel.mk' hinv' (by simpa [logDrop, World.bump] using hf) { d with cells := d.cells.set i (.val w.created) }
+    refine Rel.mk' (bg := bg) hinv' (by frame_tac hbg) (by simpa [logDrop, World.bump] using hf) { d with cells := d.cells.set i (.val w.created) }
       (by simp [hlt]) hl hty ?_ (by simp [logDrop, World.bump, hn]) hcp hbk
     show (d.cells.set i (.val w.created)).take d.len = _
     rw [List.take_set]
@@ -925,7 +934,7 @@ theorem step_assign (cfg : Cfg) (v ty i : Nat) (w : World) (s : Spec) (h : Rel v
         WM.panic_apply, dropElem, WM.modify_apply]
       cases cfg.hasDrop <;> simp [tick, logDrop, WM.pure_apply]
     rw [hex] at hinv' ⊢
-    exact Rel.mk' hinv' rfl d (by simpa [logDrop, World.bump] using hv) hl hty habs (by simp [logDrop, World.bump, hn]) hcp hbk
+    exact Rel.mk' (bg := bg) hinv' (by frame_tac hbg) rfl d (by simpa [logDrop, World.bump] using hv) hl hty habs (by simp [logDrop, World.bump, hn]) hcp hbk
 
 /-- what a `reserve` that returns did -/
 theorem reserve_ok_cases (d d' : VecSt) (n : Nat) (es : List Event) (hwf : d.WF) (h : d.reserve n = .ok (d', es)) :
@@ -987,10 +996,10 @@ theorem spliceDrop_refused (cfg : Cfg) (w : World) (it : RangeIt) (d : VecSt) (t
   · refine ⟨"capacity overflow", ?_⟩
     simp only [WM.onUnwind, WM.lift, Bind.bind, Res.bind, checkedAdd, h1, if_false, hdr]
 
-theorem step_splice (cfg : Cfg) (v ty a b k : Nat) (w : World) (s : Spec) (h : Rel v ty w s) :
-    ∃ s', Spec.Step s (.splice a b k) s' ∧ Rel v ty (step cfg ((VOp.splice a b k).toOp v ty) w).1 s' ∧
+theorem step_splice (cfg : Cfg) (v ty a b k : Nat) (w : World) (s : Spec) (h : Rel bg v ty w s) :
+    ∃ s', Spec.Step s (.splice a b k) s' ∧ Rel bg v ty (step cfg ((VOp.splice a b k).toOp v ty) w).1 s' ∧
       (step cfg ((VOp.splice a b k).toOp v ty) w).2.notUb := by
-  obtain ⟨hinv, hf, ⟨d, hv, hl, hty, habs, hcp, hbk⟩, hn⟩ := h
+  obtain ⟨hinv, hf, ⟨d, hv, hl, hty, habs, hcp, hbk⟩, hn, hbg⟩ := h
   have hcore : Hist.Core ((VOp.splice a b k).toOp v ty) := by
     intro r hr; rw [List.eq_of_mem_replicate hr]; trivial
   have hvalid : Hist.Valid w.vecs ((VOp.splice a b k).toOp v ty) := ⟨⟨d, hv, hl⟩, by intro p hp; cases hp⟩
@@ -1013,6 +1022,10 @@ theorem step_splice (cfg : Cfg) (v ty a b k : Nat) (w : World) (s : Spec) (h : R
     let W0 : World := (w.bumpN k).upd v d0
     have hv0 : W0.vecs[v]? = some d0 := World.upd_get _ v d0 hlt
     have hf0 : W0.fault = none := hf
+    have hW0 : ∀ u, u ≠ v → W0.vecs[u]? = bg u := by
+      intro u hu
+      show (w.vecs.set v d0)[u]? = _
+      rw [List.getElem?_set_ne (Ne.symm hu)]; exact hbg u hu
     have hstep0 : step cfg ((VOp.splice a b k).toOp v ty) w =
         (do spliceDrop cfg it (wrappers ty ids) k; pure [toString (b - a)] : WM Out) W0 := by
       simp only [VOp.toOp, step, splice, WM.bind_apply, hmk, getVec_ok (w.bumpN k) v d hvm hl, WM.onUnwind, hir, WM.lift_ok,
@@ -1068,14 +1081,16 @@ theorem step_splice (cfg : Cfg) (v ty a b k : Nat) (w : World) (s : Spec) (h : R
       rcases hcases with ⟨hfit, hc1⟩ | ⟨hover, hc1, hrz⟩
       · refine ⟨_, Spec.Step.spliceFits s a b k ⟨hab, by omega⟩ (by omega), ?_, hnub⟩
         rw [hfin] at hinv' ⊢
-        refine Rel.mk' hinv' (by simpa using hf0) { d3 with len := a + k + (d.len - b) } (by simp [hlt0]) hlive3
+        refine Rel.mk' (bg := bg) hinv' (by intro u hu; show (W0.vecs.set v _)[u]? = _; rw [List.getElem?_set_ne (Ne.symm hu)]; exact hW0 u hu)
+          (by simpa using hf0) { d3 with len := a + k + (d.len - b) } (by simp [hlt0]) hlive3
           (by show d3.ty = ty; rw [hty3]; exact hty) habs3 (by simp [W0, World.bumpN, hn])
           (by show d3.cap = s.cap; rw [hcap3, hc1]; exact hcp) (by show VecSt.resizable d3.bk = _; rw [hbk3, hbk1]; exact hbk)
       · refine ⟨_, Spec.Step.spliceGrow s a b k d1.cap ⟨hab, by omega⟩ (by omega) ?_ (by omega), ?_, hnub⟩
         · have : VecSt.resizable d.bk = true := hrz
           rw [this] at hbk; cases hfx : s.fixed <;> simp [hfx] at hbk ⊢
         · rw [hfin] at hinv' ⊢
-          refine Rel.mk' hinv' (by simpa using hf0) { d3 with len := a + k + (d.len - b) } (by simp [hlt0]) hlive3
+          refine Rel.mk' (bg := bg) hinv' (by intro u hu; show (W0.vecs.set v _)[u]? = _; rw [List.getElem?_set_ne (Ne.symm hu)]; exact hW0 u hu)
+            (by simpa using hf0) { d3 with len := a + k + (d.len - b) } (by simp [hlt0]) hlive3
             (by show d3.ty = ty; rw [hty3]; exact hty) habs3 (by simp [W0, World.bumpN, hn])
             (by show d3.cap = d1.cap; exact hcap3) (by show VecSt.resizable d3.bk = _; rw [hbk3, hbk1]; exact hbk)
     | panic m =>
@@ -1091,7 +1106,7 @@ theorem step_splice (cfg : Cfg) (v ty a b k : Nat) (w : World) (s : Spec) (h : R
         reserve_panic_cases d0 _ m hres
       refine ⟨_, Spec.Step.spliceRefused s a b k ⟨hab, by omega⟩ (by omega), ?_, hnub⟩
       rw [hfin] at hinv' ⊢
-      refine Rel.mk' hinv' (by simp) d0 (by simpa using hv0) hl hty ?_ (by simp [W0, World.bumpN, hn]) hcp hbk
+      refine Rel.mk' (bg := bg) hinv' (by intro u hu; simpa using hW0 u hu) (by simp) d0 (by simpa using hv0) hl hty ?_ (by simp [W0, World.bumpN, hn]) hcp hbk
       show d.cells.take a = (s.items.take a).map Cell.val
       have hd : d.cells.take d.len = s.items.map Cell.val := habs
       rw [List.map_take, ← hd, List.take_take]
@@ -1115,12 +1130,12 @@ theorem step_splice (cfg : Cfg) (v ty a b k : Nat) (w : World) (s : Spec) (h : R
     obtain ⟨m, hex⟩ := hex
     refine ⟨_, Spec.Step.spliceOut s a b k (by omega), ?_, hnub⟩
     rw [hex] at hinv' ⊢
-    exact Rel.mk' hinv' (by simp) d (by simpa using hvm) hl hty habs (by simp [World.bumpN, hn]) hcp hbk
+    exact Rel.mk' (bg := bg) hinv' (by frame_tac hbg) (by simp) d (by simpa using hvm) hl hty habs (by simp [World.bumpN, hn]) hcp hbk
 
 /-- **one step refines the abstract vector** -/
-theorem step_refines (cfg : Cfg) (v ty : Nat) (w : World) (s : Spec) (h : Rel v ty w s) (op : VOp)
+theorem step_refines (cfg : Cfg) (v ty : Nat) (w : World) (s : Spec) (h : Rel bg v ty w s) (op : VOp)
     (hop : op.Allowed s.fixed) :
-    ∃ s', Spec.Step s op s' ∧ Rel v ty (step cfg (op.toOp v ty) w).1 s' ∧ (step cfg (op.toOp v ty) w).2.notUb := by
+    ∃ s', Spec.Step s op s' ∧ Rel bg v ty (step cfg (op.toOp v ty) w).1 s' ∧ (step cfg (op.toOp v ty) w).2.notUb := by
   cases op with
   | push => exact step_push cfg v ty w s h
   | tpush => exact step_tpush cfg v ty w s h
@@ -1165,8 +1180,8 @@ with any indices and amounts - leads to a world that shows what the abstract `Ve
 sequence, and no step faults on memory. The abstract run refuses a value only when the vector is full, grows the
 capacity only when it must (and never on a fixed storage), and leaves the capacity alone otherwise. -/
 theorem history_refines (cfg : Cfg) (v ty : Nat) (ops : List VOp) :
-    ∀ (w : World) (s : Spec), Rel v ty w s → (∀ op ∈ ops, op.Allowed s.fixed) →
-      ∃ s', Spec.Steps s ops s' ∧ Rel v ty (runOps cfg v ty w ops) s' := by
+    ∀ (w : World) (s : Spec), Rel bg v ty w s → (∀ op ∈ ops, op.Allowed s.fixed) →
+      ∃ s', Spec.Steps s ops s' ∧ Rel bg v ty (runOps cfg v ty w ops) s' := by
   induction ops with
   | nil => intro w s h _; exact ⟨s, Spec.Steps.nil s, h⟩
   | cons op ops ih =>
@@ -1175,6 +1190,26 @@ theorem history_refines (cfg : Cfg) (v ty : Nat) (ops : List VOp) :
     have hfx := hs1.fixed_eq
     obtain ⟨s2, hs2, hrel2⟩ := ih _ s1 hrel1 (by intro o ho; rw [hfx]; exact hall o (List.mem_cons_of_mem _ ho))
     exact ⟨s2, Spec.Steps.cons s s1 s2 op ops hs1 hs2, hrel2⟩
+
+/-- **the other vectors are not touched**: whatever is done to `v`, every other vector of the world is, after the history,
+exactly what it was before (C01; for a clone and its source: C08's independence) -/
+theorem history_frame (cfg : Cfg) (v ty : Nat) (ops : List VOp) (w : World) (s : Spec) (h : Rel bg v ty w s)
+    (hall : ∀ op ∈ ops, op.Allowed s.fixed) (u : Nat) (hu : u ≠ v) :
+    (runOps cfg v ty w ops).vecs[u]? = w.vecs[u]? := by
+  obtain ⟨s', _, hrel⟩ := history_refines cfg v ty ops w s h hall
+  rw [hrel.others u hu, h.others u hu]
+
+/-- **independence of two vectors**: a second vector `u` that shows an abstract vector keeps showing it - same items,
+same capacity - through any history on `v`; only the counter fresh identities come from has moved on -/
+theorem other_vector_keeps {bg' : Nat → Option VecSt} (cfg : Cfg) (v ty : Nat) (ops : List VOp) (w : World) (s : Spec)
+    (h : Rel bg v ty w s) (hall : ∀ op ∈ ops, op.Allowed s.fixed) (u tu : Nat) (su : Spec) (hu : u ≠ v)
+    (hrelu : Rel bg' u tu w su) :
+    ∃ s', Spec.Steps s ops s' ∧
+      Rel (fun x => (runOps cfg v ty w ops).vecs[x]?) u tu (runOps cfg v ty w ops) { su with next := s'.next } := by
+  obtain ⟨s', hsteps, hrel⟩ := history_refines cfg v ty ops w s h hall
+  refine ⟨s', hsteps, hrel.inv, hrel.nofault, ?_, hrel.next, fun _ _ => rfl⟩
+  obtain ⟨du, hvu, rest⟩ := hrelu.vec
+  exact ⟨du, by rw [hrel.others u hu, ← h.others u hu]; exact hvu, rest⟩
 
 /-- with room the abstract `push` has no choice: it appends and leaves the capacity alone -/
 theorem Spec.push_with_room (t t' : Spec) (hroom : t.items.length < t.cap) (hp : Spec.Step t .push t') :
@@ -1219,10 +1254,10 @@ theorem Spec.reserve_result (s s' : Spec) (n : Nat) (h : Spec.Step s (.reserve n
 /-- **`reserve(n)` keeps its promise (C10 through the refinement)**: from any related world, `reserve(n)` either is
 refused (then `capacity < len + n` and nothing changed) or the next `n` pushes all succeed: the world then shows the old
 items followed by the `n` new ones, at the capacity `reserve` left. -/
-theorem reserve_then_pushes (cfg : Cfg) (v ty n : Nat) (w : World) (s : Spec) (h : Rel v ty w s) :
-    ∃ s1, Rel v ty (step cfg (.reserve v n) w).1 s1 ∧ s1.items = s.items ∧
+theorem reserve_then_pushes (cfg : Cfg) (v ty n : Nat) (w : World) (s : Spec) (h : Rel bg v ty w s) :
+    ∃ s1, Rel bg v ty (step cfg (.reserve v n) w).1 s1 ∧ s1.items = s.items ∧
       ((s1 = s ∧ s.cap < s.items.length + n) ∨
-       ∃ s', Rel v ty (runOps cfg v ty (step cfg (.reserve v n) w).1 (List.replicate n .push)) s' ∧
+       ∃ s', Rel bg v ty (runOps cfg v ty (step cfg (.reserve v n) w).1 (List.replicate n .push)) s' ∧
          s'.items = s.items ++ List.range' s.next n ∧ s'.cap = s1.cap) := by
   obtain ⟨s1, hs1, hrel1, _⟩ := step_refines cfg v ty w s h (.reserve n) trivial
   obtain ⟨hi, hn, hres⟩ := Spec.reserve_result s s1 n hs1
@@ -1272,11 +1307,11 @@ theorem Spec.Steps.cap_fixed {s s' : Spec} {ops : List VOp} (h : Spec.Steps s op
 
 /-- reads: `get(i)` shows the abstract item at `i` (`None` past the end) and changes nothing; `at(i)` likewise, with
 the `unwrap` panic past the end -/
-theorem get_refines (cfg : Cfg) (v ty i : Nat) (w : World) (s : Spec) (h : Rel v ty w s) :
+theorem get_refines (cfg : Cfg) (v ty i : Nat) (w : World) (s : Spec) (h : Rel bg v ty w s) :
     step cfg (.get v i false) w =
       (w, .ok [match s.items[i]? with | some id => cfg.tok id | none => "N"]) ∧
     (i < s.items.length → step cfg (.get v i true) w = step cfg (.get v i false) w) := by
-  obtain ⟨hinv, hf, ⟨d, hv, hl, hty, habs, hcp, hbk⟩, hn⟩ := h
+  obtain ⟨hinv, hf, ⟨d, hv, hl, hty, habs, hcp, hbk⟩, hn, hbg⟩ := h
   have hg := hinv.good v d hv
   have hlen := abs_len hg.wf habs
   have h1 := hg.wf.len_le; have h2 := hg.wf.cells_le
@@ -1298,21 +1333,88 @@ theorem get_refines (cfg : Cfg) (v ty i : Nat) (w : World) (s : Spec) (h : Rel v
       simp [this]
     · intro hh; exact (hi' hh).elim
 
+/-- what iterating the abstract vector with the calls `cs` prints: the item (or `N`) and the remaining length per call -/
+def specIter (cfg : Cfg) (items : List Nat) : Cursor → List End → Out → Out
+  | _, [], out => out
+  | c, e :: cs, out =>
+    match c.step e with
+    | (none, c') => specIter cfg items c' cs (out ++ ["N:" ++ toString c'.len])
+    | (some slot, c') => specIter cfg items c' cs (out ++ [cfg.tok (items.getD slot 0) ++ ":" ++ toString c'.len])
+
+theorem iterGo_refines (cfg : Cfg) (v : Nat) (w : World) (d : VecSt) (items : List Nat)
+    (hv : w.vecs[v]? = some d) (hl : d.live = true) (hg : d.Good) (habs : d.abs = items.map Cell.val) :
+    ∀ (cs : List End) (c : Cursor) (out : Out), c.index ≤ c.end_ → c.end_ ≤ d.len →
+      iterGo cfg v c cs out w = (w, .ok (specIter cfg items c cs out)) := by
+  have h2 := hg.wf.len_le; have h3 := hg.wf.cells_le
+  have hread : ∀ slot, slot < d.len → readElem v slot w = (w, .ok (items.getD slot 0)) := by
+    intro slot hs
+    have hc := cell_of_abs hg habs slot hs
+    simp only [readElem, WM.bind_apply, getVec_ok w v d hv hl, WM.lift, VecSt.readElem_ok d slot _ (by omega) hc]
+  intro cs
+  induction cs with
+  | nil => intro c out _ _; rfl
+  | cons e cs ih =>
+    intro c out h1 hle
+    cases e with
+    | front =>
+      by_cases hemp : c.index = c.end_
+      · have hs : c.step .front = (none, c) := by simp [Cursor.step, Cursor.next, hemp]
+        simp only [iterGo, specIter, hs]
+        exact ih c _ h1 hle
+      · have hs : c.step .front = (some c.index, { c with index := c.index + 1 }) := by
+          simp [Cursor.step, Cursor.next, hemp]
+        simp only [iterGo, specIter, hs, WM.bind_apply, hread c.index (by omega)]
+        exact ih _ _ (by show c.index + 1 ≤ c.end_; omega) hle
+    | back =>
+      by_cases hemp : c.end_ = c.index
+      · have hs : c.step .back = (none, c) := by simp [Cursor.step, Cursor.nextBack, hemp]
+        simp only [iterGo, specIter, hs]
+        exact ih c _ h1 hle
+      · have hs : c.step .back = (some (c.end_ - 1), { c with end_ := c.end_ - 1 }) := by
+          simp [Cursor.step, Cursor.nextBack, hemp]
+        simp only [iterGo, specIter, hs, WM.bind_apply, hread (c.end_ - 1) (by omega)]
+        exact ih _ _ (by show c.index ≤ c.end_ - 1; omega) (by show c.end_ - 1 ≤ d.len; omega)
+
+/-- **iteration refines the abstract vector** (C13 / C14 through the refinement): any sequence of `next` / `next_back`
+calls on `iter()` of a related vector yields exactly the abstract items from the two ends inwards, reports the
+remaining length after every call, keeps returning `None` once the ends have met, and changes nothing -/
+theorem iter_refines (cfg : Cfg) (v ty : Nat) (cs : List End) (w : World) (s : Spec) (h : Rel bg v ty w s) :
+    step cfg (.iter v cs) w =
+      (w, .ok (specIter cfg s.items ⟨0, s.items.length⟩ cs [toString s.items.length])) := by
+  obtain ⟨hinv, hf, ⟨d, hv, hl, hty, habs, hcp, hbk⟩, hn, hbg⟩ := h
+  have hg := hinv.good v d hv
+  have hlen := abs_len hg.wf habs
+  simp only [step, WM.bind_apply, getVec_ok w v d hv hl]
+  rw [iterGo_refines cfg v w d s.items hv hl hg habs cs ⟨0, d.len⟩ _ (Nat.zero_le _) (Nat.le_refl _), hlen]
+
 /-- every reachable world (any history of core operations under any fault injection) satisfies the invariant the
 relation asks for: the refinement starts from wherever such a history has led -/
 theorem rel_of_reach (cfg : Cfg) (w : World) (hr : Hist.Reach cfg w) (hf : w.fault = none) (v : Nat) (d : VecSt)
     (hv : w.vecs[v]? = some d) (hl : d.live = true) :
-    ∃ items, Rel v d.ty w ⟨items, w.created, d.cap, !VecSt.resizable d.bk⟩ := by
+    ∃ items, Rel (fun u => w.vecs[u]?) v d.ty w ⟨items, w.created, d.cap, !VecSt.resizable d.bk⟩ := by
   have hinv := Hist.reach_inv_core cfg w hr
   have hg := hinv.good v d hv
   -- every visible cell is a value: read the identities off
-  refine ⟨d.abs.map Cell.idOr0, hinv, hf, ⟨d, hv, hl, rfl, ?_, rfl, by simp⟩, rfl⟩
+  refine ⟨d.abs.map Cell.idOr0, hinv, hf, ⟨d, hv, hl, rfl, ?_, rfl, by simp⟩, rfl, fun _ _ => rfl⟩
   simp only [List.map_map]
   have : ∀ c ∈ d.abs, (Cell.val ∘ Cell.idOr0) c = c := by
     intro c hc
     obtain ⟨id, rfl⟩ := hg.allVal c hc
     rfl
   rw [List.map_congr_left this]; simp
+
+/-- **from any reachable situation**: take any world reachable by any history of core operations under any fault
+injection (7.1), any live vector in it, and any sequence of the operations above: the sequence behaves like the same
+sequence on an abstract `Vec` that starts with the items and the capacity the vector shows, and no other vector changes -/
+theorem reachable_history_refines (cfg : Cfg) (w : World) (hr : Hist.Reach cfg w) (hf : w.fault = none) (v : Nat)
+    (d : VecSt) (hv : w.vecs[v]? = some d) (hl : d.live = true) (ops : List VOp)
+    (hall : ∀ op ∈ ops, op.Allowed (!VecSt.resizable d.bk)) :
+    ∃ items s', Spec.Steps ⟨items, w.created, d.cap, !VecSt.resizable d.bk⟩ ops s' ∧
+      Rel (fun u => w.vecs[u]?) v d.ty (runOps cfg v d.ty w ops) s' ∧
+      ∀ u, u ≠ v → (runOps cfg v d.ty w ops).vecs[u]? = w.vecs[u]? := by
+  obtain ⟨items, hrel⟩ := rel_of_reach cfg w hr hf v d hv hl
+  obtain ⟨s', hsteps, hrel'⟩ := history_refines cfg v d.ty ops w _ hrel hall
+  exact ⟨items, s', hsteps, hrel', fun u hu => hrel'.others u hu⟩
 
 /-! non-vacuity: a concrete world and history -/
 def sampleVec : VecSt :=
